@@ -308,9 +308,66 @@ static void hash_data_alignment(vh_rng* r) {
   vh_count("hash_data_alignment_sweeps");
 }
 
+/* ---------- plain user types of every size 1..40: no instances at all, so eq / hash / copy / assign / swap fall back
+** to the byte-wise defaults over exactly size(type) bytes -- sizes that are not a multiple of 8 included ---------- */
+
+enum { NBLOB = 40 };
+static var BLOB[NBLOB + 1];
+
+static void fill_blob(vh_rng* r, unsigned char* p, size_t n) { for (size_t i = 0; i < n; i++) { p[i] = (unsigned char)vh_below(r, 256); } }
+
+static void blob_values(vh_rng* r) {
+  size_t n = 1 + vh_below(r, NBLOB);
+  var T = BLOB[n];
+  unsigned char va[NBLOB], vb[NBLOB];
+  fill_blob(r, va, n); fill_blob(r, vb, n);
+  if (memcmp(va, vb, n) == 0) { vb[n - 1] ^= 1; }
+  char d[96];
+  snprintf(d, sizeof d, "plain %zu-byte struct", n);
+  var a = new_with(T, tuple()), a2 = new_with(T, tuple()), b = new_with(T, tuple());
+  memcpy(a, va, n); memcpy(a2, va, n); memcpy(b, vb, n);
+  equal_pair("struct", a, a2, d);
+  /* differs in the last byte only: must not be eq (the defaults look at every byte of the object) */
+  var c = new_with(T, tuple()); memcpy(c, va, n); ((unsigned char*)c)[n - 1] ^= 0x80;
+  vh_eval();
+  if (eq(a, c)) { vh_violation(K("struct", "different-last-byte-eq"), "two %zu-byte structs that differ in their last byte are eq", n); }
+  copy_assign("struct", a, new_with(T, tuple()), d);
+  /* swap: both objects exchanged completely, heap/heap and heap/array-element */
+  var exc = NULL;
+  VH_CATCH(swap(a, b), exc);
+  vh_evals(2);
+  if (exc) { vh_violation(K("struct", "swap-raised"), "swap raised %s for %s", vh_exc_name(exc), d); }
+  else if (memcmp(a, vb, n) != 0 || memcmp(b, va, n) != 0) { vh_violation(K("struct", "swap-did-not-exchange"), "swap of two %zu-byte structs did not exchange all their bytes", n); }
+  vh_count("swaps"); vh_count(n % 8 ? "blob_swaps_size_not_multiple_of_8" : "blob_swaps_size_multiple_of_8");
+  /* an Array of them: elements sit back to back, so a swap that touches too much or too little damages a neighbour */
+  int m = 3 + (int)vh_below(r, 14);
+  var arr = new(Array, T);
+  unsigned char model[20][NBLOB];
+  for (int i = 0; i < m; i++) { fill_blob(r, model[i], n); var e = new_with(T, tuple()); memcpy(e, model[i], n); push(arr, e); }
+  int i = (int)vh_below(r, (uint64_t)m), j = (int)vh_below(r, (uint64_t)m);
+  VH_CATCH(swap(get(arr, $I(i)), get(arr, $I(j))), exc);
+  { unsigned char t[NBLOB]; memcpy(t, model[i], n); memcpy(model[i], model[j], n); memcpy(model[j], t, n); }
+  vh_evals(m);
+  for (int k = 0; k < m && !exc; k++) {
+    if (memcmp(get(arr, $I(k)), model[k], n) != 0) { vh_violation(K("struct", "swap-did-not-exchange"), "swap of elements %d and %d of an Array of %zu-byte structs: element %d is wrong afterwards", i, j, n, k); break; }
+  }
+  /* sort (default cmp = byte order) is built on swap: result must be the sorted permutation of the model */
+  VH_CATCH(sort(arr), exc);
+  if (exc) { vh_violation(K("struct", "sort-raised"), "sort of an Array of %zu-byte structs raised %s", n, vh_exc_name(exc)); }
+  else {
+    for (int x = 0; x < m; x++) { for (int y = x + 1; y < m; y++) { if (memcmp(model[y], model[x], n) < 0) { unsigned char t[NBLOB]; memcpy(t, model[x], n); memcpy(model[x], model[y], n); memcpy(model[y], t, n); } } }
+    for (int k = 0; k < m; k++) {
+      if (memcmp(get(arr, $I(k)), model[k], n) != 0) { vh_violation(K("struct", "sort-result-is-not-the-sorted-permutation"), "sorted Array of %d %zu-byte structs differs from the sorted model at element %d", m, n, k); break; }
+    }
+    vh_count("blob_array_sorts");
+  }
+  keep_alive(arr);
+}
+
 static void case_random(vh_rng* r, long index) {
   (void)index;
   scalar_classes(r);
+  blob_values(r); blob_values(r);
   seq_histories(r);
   map_histories(r);
   hash_data_alignment(r);
@@ -335,5 +392,6 @@ static void fixed(void) {
 
 int main(int argc, char** argv) {
   Pt = new_root(Type, $S("Pt"), $I(sizeof(struct Pt)));
+  for (int n = 1; n <= NBLOB; n++) { char nm[16]; snprintf(nm, sizeof nm, "Blob%d", n); BLOB[n] = new_root(Type, $S(strdup(nm)), $I(n)); }
   return vh_run(argc, argv, "values", fixed, case_random);
 }
